@@ -40,8 +40,8 @@ Print Assumptions C17_selection_after_reorder_sound.
 (* In every chain containing Reorder'd providers, those not marked Reorder keep their listed
    relative order: the providers that are not marked Reorder appear in the reordered list in
    exactly the order they were listed (by provider id), for every list and whatever the
-   topological sort does with the others - including when it runs out of fuel or leaves
-   providers unplaced. *)
+   topological sort does with the others - including when it leaves providers unplaced (it cannot
+   run out of fuel: C04_reorder_sort_fuel_suffices). *)
 Theorem C17_non_reorder_keep_listed_order : forall te funcs funcs',
   reorder_funcs te funcs = Ok funcs' ->
   map p_pid (filter (fun p => negb (is_reorder p)) funcs') = map p_pid (filter (fun p => negb (is_reorder p)) funcs).
